@@ -79,6 +79,8 @@ def check_project(ctx, fi):
         raise AnalysisError('GraphicalModel.project: expected a cached and an uncached return')
     for r in rets:
         v = expand(r.value, defs, keep=(attrs,))
+        while isinstance(v, ast.Call) and isinstance(v.func, ast.Attribute) and v.func.attr == 'copy' and not v.args and not v.keywords:
+            v = v.func.value          # a copy keeps the layout
         ok = isinstance(v, ast.Call) and isinstance(v.func, ast.Attribute) and v.func.attr == 'project' and len(v.args) == 1 \
             and U(v.args[0]) == attrs
         ctx.ob('requested-order', fi, r, ok, 'the answer must be ordered by the requested tuple: `<factor>.project(%s)`; returns `%s`' % (attrs, U(v)[:70]))
